@@ -296,6 +296,32 @@ def delta_kl(S, N):
     S.prove_eq(val, -_logpdf(QG, Qm, Vs), "KL(delta_v || q) = -log q(v)")
 
 
+def delta_semantics(S, N, B):
+    """Delta(v): point mass at v - mean v, variance 0, rsample = v, log_prob(v) = log_density, expand leaves the original untouched
+       and gives a usable distribution; KL(delta || q) = -log q(v) per batch element"""
+    v = S.randn(N); Vs = S.sym_tensor(v, "v")
+    qm = S.randn(N); Qm = S.sym_tensor(qm, "qm")
+    qc, QC, QG = _cov(S, "dense", N, ())
+    with S.mode():
+        d = Delta(v, event_dim=1)
+        S.prove_eq(d.mean, Vs, "Delta.mean = v")
+        S.prove_eq(d.variance, np.array([Sym.const(0.0)] * N, dtype=object), "Delta.variance = 0")
+        S.prove_eq(d.rsample(), Vs, "Delta.rsample() = v")
+        S.prove_eq(d.rsample(torch.Size([2]))[1], Vs, "Delta.rsample([2])[1] = v")
+        S.prove_eq(d.log_prob(v), np.array(Sym.const(0.0), dtype=object).reshape(()), "Delta.log_prob(v) = log_density (0)")
+        e = S.must_not_raise("Delta.expand", lambda: d.expand(torch.Size([B])))
+        S.check_concrete(tuple(d.batch_shape) == () and tuple(d.event_shape) == (N,), "expand leaves the original's shapes untouched", "%s %s" % (tuple(d.batch_shape), tuple(d.event_shape)))
+        ok = S.must_not_raise("use of the expanded Delta", lambda: (tuple(e.batch_shape), tuple(e.event_shape), e.mean, e.rsample(), e.log_prob(v)))
+        S.check_concrete(ok[0] == (B,) and ok[1] == (N,), "expanded Delta has batch shape (%d,)" % B, str(ok[:2]))
+        for b in range(B):
+            S.prove_eq(ok[2][b], Vs, "expanded Delta mean[%d] = v" % b)
+            S.prove_eq(ok[3][b], Vs, "expanded Delta rsample()[%d] = v" % b)
+        q = MultivariateNormal(qm, qc)
+        val = torch.distributions.kl.kl_divergence(e, q)
+    for b in range(B):
+        S.prove_eq(val[b], -_logpdf(QG, Qm, Vs), "KL(expanded delta || q)[%d] = -log q(v)" % b)
+
+
 def scenarios(tier, seed):
     out = []
     def add(fn, **p):
@@ -314,6 +340,7 @@ def scenarios(tier, seed):
         add("indexing", shape=[3], rep="lazy", alphabet="t")
         add("indexing", shape=[2, 3], rep="lazy", alphabet="q")
         add("delta_kl", N=3)
+        add("delta_semantics", N=2, B=2)
     else:
         shapes = [(), (1,), (2,), (1, 2), (2, 1), (2, 2)]
         k = 0
@@ -342,4 +369,6 @@ def scenarios(tier, seed):
         add("indexing", shape=[2, 2, 3], rep="lazy", alphabet="q")
         add("delta_kl", N=3)
         add("delta_kl", N=2)
+        add("delta_semantics", N=2, B=2)
+        add("delta_semantics", N=3, B=3)
     return out
